@@ -10,6 +10,7 @@
 //	 "validate_before": [...],
 //	 "passes": {name: {"after": dump | "same": true, "after2_same": bool, "after2": dump?,
 //	                    "after_fin": dump (raw passes: AFTER followed by the lowerer's finish step),
+//	                    "before": dump (only if the module this pass was applied to differs from the first lowering),
 //	                    "err": "...", "validate": [...]}}}
 //
 // Pass names.  On the lowered module (what naga.Lower returns):
@@ -231,7 +232,12 @@ func doRun(j *job, res map[string]any) {
 					pr["err"] = err.Error()
 					return
 				}
-				cmp = rawJS
+				// BEFORE is the dump of the very module the pass is applied to: two lowerings of one source
+				// need not be identical (the lowerer names unused let bindings in map iteration order)
+				cmp = marshal(common.Dump(m))
+				if !bytes.Equal(cmp, rawJS) {
+					pr["before"] = json.RawMessage(cmp)
+				}
 			} else {
 				var err error
 				m, err = lower()
@@ -239,7 +245,10 @@ func doRun(j *job, res map[string]any) {
 					pr["err"] = err.Error()
 					return
 				}
-				cmp = beforeJS
+				cmp = marshal(common.Dump(m))
+				if !bytes.Equal(cmp, beforeJS) {
+					pr["before"] = json.RawMessage(cmp)
+				}
 			}
 			m1, err := applyPass(name, m)
 			if err != nil {
